@@ -245,21 +245,19 @@ def collect():
                 continue
             for c in _constructed(fn, names):
                 sites.setdefault(c, []).append('%s:%s' % (m, q))
-    # ---- Reactor.init_settings: job.settings[key] = copy(option.default) ----------------------
-    rfun = _functions(mods['bert_e.reactor'][1]).get('Reactor.init_settings')
-    if rfun is None:
-        raise ValueError('Reactor.init_settings not found')
-    assigns = [n for n in _own_nodes(rfun) if isinstance(n, ast.Assign)]
-    if len(assigns) != 1 or 'settings' not in ast.dump(assigns[0].targets[0]):
-        raise ValueError('unexpected shape of Reactor.init_settings')
-    v = assigns[0].value
-    if isinstance(v, ast.Call) and isinstance(v.func, ast.Name) and v.func.id in ('copy', 'deepcopy') \
-            and len(v.args) == 1 and ast.dump(v.args[0]).count("attr='default'") == 1:
-        copies = True
-    elif isinstance(v, ast.Attribute) and v.attr == 'default':
-        copies = False
-    else:
-        raise ValueError('unexpected right-hand side in Reactor.init_settings: ' + ast.dump(v)[:120])
+    # ---- Reactor.init_settings: does a job get its own copy of the mutable defaults?  (live objects) ----------
+    from types import SimpleNamespace
+    probe = SimpleNamespace(settings={})
+    Reactor().init_settings(probe)
+    if set(probe.settings) != set(k for k, _s, _m in options):
+        raise ValueError('Reactor.init_settings does not set exactly the registered options')
+    copies = True
+    for key, cb in Reactor.get_options().items():
+        got = probe.settings[key]
+        if got != cb.default:
+            raise ValueError('Reactor.init_settings gives %s a value different from its default' % key)
+        if isinstance(cb.default, (set, list, dict)) and got is cb.default:
+            copies = False
     return {'classes': classes, 'commands': commands, 'options': options, 'sites': sites, 'copies': copies}
 
 
@@ -290,7 +288,7 @@ Definition options : list (string * string * bool) :=
 (* message classes constructed outside the command handlers: class -> module:function *)
 Definition noncommand_sites : list (string * list string) :=
   %s.
-(* Reactor.init_settings assigns copy(option.default) (true) or option.default itself (false) *)
+(* Reactor.init_settings gives the job its own copy of every mutable default (true) or the default object itself (false) *)
 Definition init_settings_copies : bool := %s.
 ''' % (core.REPO, cl.replace('); (', ');\n   ('), cm.replace(')); (', '));\n   ('),
        op.replace('); (', ');\n   ('), st.replace(']); (', ']);\n   ('), coq_bool(f['copies']))
@@ -386,6 +384,13 @@ def _pure():
     return _P
 
 
+def close_pure():
+    global _P
+    if _P is not None:
+        _P.close()
+        _P = None
+
+
 def eval_case(P, letters, o, reps=3):
     """Three real evaluations in a row on one stub pull request (nothing changes outside).
     Returns per repetition (comment list before as [(id, tuple)], executed ids, appended)."""
@@ -466,7 +471,7 @@ def run_eval_corr(ctx):
     if ctx.quick:
         alphabet, n = [INIT, A0, RC, U_PLAIN, U_RESET, U_HELP, U_DENIED, U_UNKNOWN], 4
     else:
-        alphabet, n = [INIT, A0, A1, RC, HELP, B0, U_PLAIN, U_RESET, U_HELP, U_DENIED, U_UNKNOWN], 5
+        alphabet, n = [INIT, A0, RC, HELP, B0, U_PLAIN, U_RESET, U_HELP, U_DENIED, U_UNKNOWN], 5
     ors = oracles()
     cases = list(lists_upto(alphabet, n))
     ctx.count('eval_lists', len(cases))
@@ -642,9 +647,9 @@ def run_corpus(ctx):
 
 def run_pure_cases(ctx, cases, tag=''):
     """Single pure cases with the ORIGINAL renderer (corpus / replay)."""
-    P = mon_c10.Pure(fast_render=False)
     global _P
-    saved, _P = _P, P
+    close_pure()
+    _P = mon_c10.Pure(fast_render=False)
     try:
         for letters, o in cases:
             o = {'early': tuple(o['early']) if isinstance(o['early'], list) else o['early'], 'reset': o['reset'],
@@ -656,22 +661,34 @@ def run_pure_cases(ctx, cases, tag=''):
             for inp, exp, obs, what in r['violations']:
                 ctx.violation(inp, exp, obs, what, key=core.canon({'what': what, 'reply': inp['oracle']['reset']}))
     finally:
-        _P = saved
-        P.close()
-        if saved is not None:     # re-install the oracle hooks of the bulk instance
-            saved.__init__(fast_render=True)
+        close_pure()
 
 
 # =========================================================================================== system CORR
 
 def run_system(ctx, seeds, length, per_state, replay_history=None, workers=16, p_inject=1.0, max_triples=None,
-               budget_s=None):
+               budget_s=None, corpus=True, a_limit=None):
+    """Histories (and, unless a single history is replayed, the history files of the corpus) in one pool; the
+    corpus and the long (lifecycle) histories first.  Histories that have not started when the budget is spent are
+    skipped and counted."""
     deadline = time.time() + budget_s if budget_s else None
-    jobs = [(s, length, per_state, None, p_inject, max_triples, deadline) for s in seeds] \
-        if replay_history is None else [(0, length, per_state, replay_history, 1.0, None, None)]
+    if replay_history is not None:
+        jobs = [(0, length, per_state, replay_history, 1.0, None, None, None)]
+    else:
+        jobs = []
+        d = os.path.join(core.VERIF, 'corpus', 'C10')
+        if corpus and os.path.isdir(d):
+            for f in sorted(os.listdir(d)):
+                if f.endswith('.json'):
+                    data = json.load(open(os.path.join(d, f)))
+                    if data.get('kind') == 'history':
+                        jobs.append((0, 0, None, data['input']['history'], 1.0, None, None, None))
+                        ctx.count('corpus_histories')
+        ordered = [s_ for s_ in seeds if s_ % 2 == 1] + [s_ for s_ in seeds if s_ % 2 == 0]
+        jobs += [(s_, length, per_state, None, p_inject, max_triples, deadline, a_limit) for s_ in ordered]
     mp = get_context('fork')
     with mp.Pool(min(workers, len(jobs))) as pool:
-        results = pool.map(mon_c10.history_pair, jobs, chunksize=1)
+        results = list(pool.imap_unordered(mon_c10.history_pair, jobs, chunksize=1))
     skipped = [r for r in results if r.get('skipped')]
     results = [r for r in results if not r.get('skipped')]
     if skipped:
@@ -709,46 +726,57 @@ def run_system(ctx, seeds, length, per_state, replay_history=None, workers=16, p
         if walls else {}
 
 
-def run_system_corpus(ctx):
-    d = os.path.join(core.VERIF, 'corpus', 'C10')
-    if not os.path.isdir(d):
-        return
-    for f in sorted(os.listdir(d)):
-        if f.endswith('.json'):
-            data = json.load(open(os.path.join(d, f)))
-            if data.get('kind') == 'history':
-                run_system(ctx, [0], 0, None, replay_history=data['input']['history'], workers=1)
-
-
 # =========================================================================================== entry points
 
 def run(ctx):
     if ctx.model is None:
         ctx.notes.append('extracted model unavailable: correspondence and monitor not run')
         return
-    t0 = time.time()
-    facts = run_find_send_corr(ctx)
-    replay_witness(ctx, facts)
-    run_settings_corr(ctx)
-    n_lists, n_or = run_eval_corr(ctx)
-    run_corpus(ctx)
-    t1 = time.time()
+    # system histories first: the pure part replaces functions of bert_e in this process (restored at the end)
+    t_sys0 = time.time()
     n_hist = 32 if ctx.quick else 600
-    length = 10 if ctx.quick else 14
-    per_state = 2 if ctx.quick else 4
+    length = 7 if ctx.quick else 14
+    per_state = 1 if ctx.quick else 2
+    p_inject = 0.5 if ctx.quick else 1.0
+    max_triples = 4 if ctx.quick else 40
     seeds = [ctx.seed * 100000 + i for i in range(n_hist)]
-    run_system_corpus(ctx)
-    run_system(ctx, seeds, length, per_state)
-    ctx.extra['pure_wall_s'] = round(t1 - t0, 1)
-    ctx.extra['system_wall_s'] = round(time.time() - t1, 1)
+    only = os.environ.get('VERIF_C10_ONLY', '')       # development aid: 'pure' or 'system'
+    if only == 'pure':
+        seeds = []
+    # one Bert-E job costs about a second: the quick tier repeats an evaluation (three times) after about half of
+    # the events of short histories, the thorough tier after every event of longer ones, until its time budget
+    if only != 'pure':
+        run_system(ctx, seeds, length, per_state, p_inject=p_inject, max_triples=max_triples,
+                   budget_s=80 if ctx.quick else 900, a_limit=30 if ctx.quick else 200)
+    else:
+        ctx.notes.append('VERIF_C10_ONLY=pure: system histories not run')
+    t1 = time.time()
+    n_lists = n_or = 0
+    try:
+        facts = run_find_send_corr(ctx)
+        replay_witness(ctx, facts)
+        run_settings_corr(ctx)
+        if only != 'system':
+            n_lists, n_or = run_eval_corr(ctx)
+            run_corpus(ctx)
+        else:
+            ctx.notes.append('VERIF_C10_ONLY=system: bulk pure evaluation domain not run')
+    finally:
+        close_pure()
+    t0 = t1
+    ctx.extra['system_wall_s'] = round(t0 - t_sys0, 1)
+    ctx.extra['pure_wall_s'] = round(time.time() - t0, 1)
     ctx.exhaustive = False
-    ctx.rule = ('pure: all comment lists up to length %s over the alphabet {InitMessage, ApprovalRequired x2 texts, '
-                'ResetComplete, HelpMessage, IntegrationDataCreated, plain text, reset, help, denied option, unknown '
-                'command} (%d lists%s) x %d oracles x 3 successive evaluations; find_comment/_send_comment over lists '
+    ctx.rule = ('pure: all comment lists up to length %s over the alphabet {InitMessage, ApprovalRequired, '
+                'ResetComplete, plain text, reset, help, denied option, unknown command; thorough adds HelpMessage and '
+                'IntegrationDataCreated} (%d lists%s) x %d oracles (reset reply ResetComplete / LossyResetWarning / '
+                'returns; rest of the evaluation silent / one message / IntegrationDataCreated + another text; early '
+                'stop silent / WrongDestination) x 3 successive evaluations; find_comment/_send_comment over lists '
                 'x username x startswith x max_history {None,-1,0,1,2,10,-2}; notify_user for every template class; '
                 'settings of up to 3 successive jobs.  system: %d seeded histories (generate_and_run / '
-                'lifecycle_and_run, <=%d generator events) with %s evaluations repeated three times after every '
-                'event, each history replayed with a fresh BertE per job.  evaluation = one real '
+                'lifecycle_and_run, <=%d generator events; thorough: as many as start within the time budget) with %s '
+                'evaluation(s) repeated three times after the events selected by a seeded coin (quick 1/2, thorough '
+                'every event, capped per history), each history replayed with a fresh BertE per job.  evaluation = one real '
                 'handle_pull_request / find / send / notify call or one Bert-E job; non-trivial = distinct (last '
                 'three comments, oracle) in which a command handler ran, distinct (class, outcome) of notify_user, '
                 'distinct settings job sequences with option calls before the last job, distinct (evaluation kind, '
@@ -758,6 +786,13 @@ def run(ctx):
 
 
 def replay(ctx, data):
+    try:
+        _replay(ctx, data)
+    finally:
+        close_pure()
+
+
+def _replay(ctx, data):
     inp = data['input']
     if 'history' in inp:
         h = inp['history']
